@@ -217,5 +217,16 @@ def dagWF3b {V} (r : Runner V) : Bool :=
   sh.all (fun e => (e.2.1 ++ e.2.2).all (fun p => decide (rank p < rank e.1))) &&
   (r.ctrlPreds ++ r.dataPreds).all (fun e => e.2.all (fun p => decide (rank p < rank e.1)))
 
+/-! ### what has happened to the nodes END depends on, when a run returns -/
+
+/-- `p` is a control ancestor of END: a declared control predecessor of END or of another ancestor -/
+inductive AncEnd {V} (r : Runner V) : Key → Prop
+  | base (p : Key) (h : p ∈ lookupList END r.ctrlPreds) : AncEnd r p
+  | step (p n : Key) (hn : AncEnd r n) (h : p ∈ lookupList n r.ctrlPreds) : AncEnd r p
+
+/-- the node has completed, or is skipped, given the completions `H` -/
+def Settled {V} (r : Runner V) (H : List (Done V)) (n : Key) : Prop :=
+  (∃ o, (n, o) ∈ H) ∨ SkippedIn r H n
+
 end DagRun
 end EinoV.Engine
